@@ -155,12 +155,12 @@ std::vector<ComplexType> TwoParticleGF::compute(bool clear, std::vector<boost::t
     std::vector<ComplexType> m_data;
     if (Status < Prepared) throw (exStatusMismatch());
     if (Status >= Computed) return m_data;
+    m_data.resize(freqs.size(), 0.0); // one value per requested frequency, also for an identically vanishing component
     if (!Vanishing) {
         // Create a "skeleton" class with pointers to part that can call a compute method
         pMPI::mpi_skel<ComputeAndClearWrap> skel;
         bool fill_container = freqs.size() > 0;
         skel.parts.reserve(parts.size());
-        m_data.resize(freqs.size(), 0.0);
         for (size_t i=0; i<parts.size(); i++) {
             skel.parts.push_back(ComputeAndClearWrap(&freqs, &m_data, parts[i], clear, fill_container, 1));
             };
